@@ -217,7 +217,7 @@ class C20(Check):
         'outside Latin-1 are not generated where the code lower-cases)',
         'bytes documents are compared through their latin-1 decoding (what the code does)',
     )
-    rule = ('table: FULL product 17 transport kinds (16 media types + no Content-Type header; plus no response) x '
+    rule = ('table: FULL product 18 transport kinds (16 media types, no Content-Type header, no response) x '
             '3 transport charsets x 11 XML parts (none / declaration without, with 3 encodings / 5 BOMs / BOM+declaration) '
             'x 5 meta parts x text|bytes; sniffer: grammar stream of XML 1.0 declarations with independent spelling '
             'choices (white space kinds, quotes, spaces around =, standalone, stray encoding attributes, other PI '
@@ -353,7 +353,7 @@ class C20(Check):
             for k in range(1, len(b) + 1):
                 docs += [b[:k], b[:k] + 'ab', b[:k] + '<?xml version="1.0" encoding="d"?>', b[:k] + '\x00\x00\x00\x00']
         # boundary: the 2048 read limit
-        for pad in (1990, 2003, 2004, 2005, 2006, 2010):
+        for pad in (1990, 2003, 2004, 2005, 2006, 2010, 2011, 2012, 2013, 2020):
             d = '<?xml version="1.0"' + ' ' * pad + 'encoding="late"?>'
             docs += [d, d + '<a/>']
         docs.append('<?xml version="1.0" encoding="e"' + ' ' * 2100 + '?>')
@@ -368,7 +368,7 @@ class C20(Check):
         for _ in range(ctx.n(2500, 150000)):
             docs.append(self.gen_doc(rng))
         ws = []
-        long_decl = set(d for d in docs[:n_limit] if len(d) > 2000)
+        long_decl = set(d for d in docs[:n_limit] if d.find('?>') + 2 > 2048)
         for i, d in enumerate(docs):
             forms = ['str']
             if all(ord(c) < 256 for c in d):
